@@ -272,8 +272,12 @@ func (l *VegasLimit) updateEstimatedLimit(startTime int64, rtt int64, inFlight i
 			// Detecting latency so decrease
 			newLimit = l.decreaseFunc(l.estimatedLimit)
 		} else {
-			// otherwise we're within he sweet spot so nothing to do
-			return
+			// otherwise we're within he sweet spot so nothing to do, unless the limit started above the maximum:
+			// then it is brought back like on every other update
+			if l.estimatedLimit <= float64(l.maxLimit) {
+				return
+			}
+			newLimit = l.estimatedLimit
 		}
 	}
 
